@@ -2,7 +2,7 @@
 import ast
 
 from ..core import AnalysisError, src, qualname_of, enclosing_function, src_ref
-from ..pysym import SymExec, show, subterms, str_parts
+from ..pysym import SymExec, show, subterms, str_parts, terms_of
 from ..rules_pyx import N, C, A
 from .. import codec
 from .. import logic
@@ -129,17 +129,48 @@ def r_conll_heads(repo, rep, R='R7.1'):
     rep.check(ok, R, '%s:%s _resolve_dependencies' % (CONLL, outer.lineno), 'resolve:one-root', 'exactly one word keeps the root marker (asserted)',
               'there is no assertion that exactly one dependency stays -1')
     crec = mod.get('conll_of.rec')
-    col = [s_ for st, o in SymExec(crec, unroll=1).run() for e in st.events for x in e[1:-1] if isinstance(x, tuple)
-           for s_ in subterms(x) if s_[0] == 'binop' and s_[1] == '+' and s_[3] == C(1) and s_[2][0] == 'sub' and s_[2][1] == N('dependencies')]
-    ok = bool(col) and all(c[2][2] == ('binop', '-', N('counter'), C(1)) for c in col)
-    rep.check(ok, R, '%s:%s conll_of.rec' % (CONLL, crec.lineno), 'conll:head-column', 'the head column prints dependencies[counter-1] + 1 (1-based, 0 = root)',
-              'head column is %s' % [show(c) for c in col][:2])
+    # the row of a word: ID column = position + 1 (1-based), HEAD column = dependencies[position] + 1 (0 = root), and the
+    # position advances by exactly one per leaf -- whether it is kept in a counter variable or drawn from itertools.count()
+    ok_cols = False
+    ok_adv = False
+    detail = 'no tab-joined row found on the leaf path'
+    p_node = node_param(crec)
+    for st, o in SymExec(crec, unroll=1).run():
+        if not any(c == A(N(p_node), 'is_leaf') and pol for c, pol, _ in st.conds):
+            continue
+        rows = [t for t in (x for y in terms_of(st) for x in subterms(y))
+                if t[0] == 'call' and t[1] == A(C('\t'), 'join') and len(t[2]) == 1]
+        for r_ in rows:
+            seq = r_[2][0]
+            els = seq[1] if seq[0] in ('tuple', 'list') else (seq[2] if seq[0] == 'call' and seq[1][0] == 'name' and seq[1][1][:1] in '_ABCDEFGHIJKLMNOPQRSTUVWXYZ' and not seq[3] else None)
+            if els is None or len(els) < 7:
+                continue
+            unstr = lambda t: t[2][0] if t[0] == 'call' and t[1] == N('str') and len(t[2]) == 1 else t
+            id_t, head_t = unstr(els[0]), unstr(els[6])
+            if not (head_t[0] == 'binop' and head_t[1] == '+' and head_t[3] == C(1) and head_t[2][0] == 'sub' and head_t[2][1] == N('dependencies')):
+                detail = 'head column is %s' % show(head_t)[:60]
+                continue
+            pos_t = head_t[2][2]
+            ok_cols = id_t == ('binop', '+', pos_t, C(1)) or pos_t == ('binop', '-', id_t, C(1)) or id_t == ('binop', '+', C(1), pos_t)
+            detail = 'ID column %s, head column dependencies[%s] + 1' % (show(id_t)[:40], show(pos_t)[:40])
+            base = id_t if id_t[0] in ('name',) else pos_t
+            augs = [e for e in st.events if e[0] == 'aug' and e[1] == base]
+            draws = [e for e in st.events if e[0] == 'call' and e[1] == base and base[0] == 'call' and base[1] == N('next')]
+            if base[0] == 'name':
+                ok_adv = len(augs) == 1 and augs[0][2] == '+' and augs[0][3] == C(1)
+            else:
+                src_ok = base[0] == 'call' and base[1] == N('next') and len(base[2]) == 1 and (
+                    base[2][0] in (('call', N('count'), (), ()), ('call', A(N('itertools'), 'count'), (), ()), ('call', N('count'), (C(0),), ())))
+                ok_adv = src_ok and len(draws) == 1
+            detail += '; advance: %s' % ('counter += 1' if augs else ('one draw from count()' if draws else 'none'))
+    rep.check(ok_cols, R, '%s:%s conll_of.rec' % (CONLL, crec.lineno), 'conll:head-column', 'the head column prints dependencies[position] + 1 for the word whose ID is position + 1 (%s)' % detail,
+              'ID and head columns do not refer to the same word: %s' % detail)
+    rep.check(ok_adv, R, '%s:%s conll_of.rec' % (CONLL, crec.lineno), 'conll:counter', 'the word position advances by one per leaf', 'the word position does not advance by exactly one per leaf (%s)' % detail)
     co = mod.get('conll_of')
     rep.check(any(isinstance(n, ast.Assign) and src_ref(n.value) == '_resolve_dependencies(tree)' for n in ast.walk(co)), R,
               '%s:%s conll_of' % (CONLL, co.lineno), 'conll:uses-resolve', 'the column is computed by _resolve_dependencies(tree) of the printed tree',
               'conll_of does not call _resolve_dependencies(tree)')
-    cnt = [src(n) for n in ast.walk(crec) if isinstance(n, ast.AugAssign) and src(n.target) == 'counter']
-    rep.check(cnt == ['counter += 1'], R, '%s:%s conll_of.rec' % (CONLL, crec.lineno), 'conll:counter', 'the word counter advances by one per leaf', 'counter updates: %s' % cnt)
+    pass
 
 
 def r_polarity(repo, rep, R='R7.2'):
